@@ -75,6 +75,38 @@ def nep18Str : Nep18 → String
 def routeStr : UfuncRoute → String
   | .elemwise => "elemwise" | .reduce => "reduce" | .outerAsCall => "outer" | .arrayFunction => "array_function"
   | .notImplemented => "notimplemented"
+  | .split parts => "split:" ++ ",".intercalate (parts.map nameStr)
+
+partial def uresult17J : UResult Nat → Json
+  | .one u r ops => Json.mkObj [("ufunc", nameJ u), ("route", Json.str (routeStr r)), ("operands", listJ natJ ops)]
+  | .tuple parts => Json.mkObj [("tuple", Json.arr (parts.map uresult17J).toArray)]
+
+/-- a name the source never mentions (an arbitrary NumPy ufunc) matches nothing in the generated lists -/
+def nameIdOrUnknown (s : String) : Gen.Name := (Gen.names.idxOf? s).getD Gen.names.length
+
+def jFmt17 (j : Json) : R Fmt :=
+  match j with
+  | .str "coo" => pure .coo
+  | .str "dok" => pure .dok
+  | _ => do
+    let ax ← jList jNat (← jField j "gcxs")
+    pure (.gcxs ax)
+
+def fmt17J : Fmt → Json
+  | .coo => Json.str "coo" | .dok => Json.str "dok" | .gcxs ax => Json.mkObj [("gcxs", listJ natJ ax)]
+
+def jComputed17 (j : Json) : R Computed :=
+  match j with
+  | .str "dense" => pure .dense
+  | _ => Computed.sparse <$> jFmt17 j
+
+def computed17J : Computed → Json
+  | .dense => Json.str "dense" | .sparse f => fmt17J f
+
+def outStep17Str : OutStep → String
+  | .unpack => "unpack" | .shapeCheck => "shapeCheck" | .refuseDense => "refuseDense"
+  | .convertFormat k => if k then "convertFormat:keepAxes" else "convertFormat"
+  | .shallowCopy => "shallowCopy" | .returnOut => "returnOut"
 
 def spellingOf (kind : String) (n : Gen.Name) : R Spelling :=
   match kind with
@@ -94,6 +126,10 @@ def c17 (op : String) (a : Array Json) : R (Option Json) := do
       ("array_namespace", nameJ Gen.arrayNamespaceModule), ("bind_fallback", Json.bool Gen.nep18BindFallback),
       ("operators", Json.arr (Gen.operatorTable.map fun e => Json.arr #[nameJ e.1, nameJ e.2.1, nameJ e.2.2]).toArray),
       ("gufuncs", listJ nameJ Gen.gufuncs),
+      ("multi_out_ufuncs", listJ nameJ Gen.multiOutUfuncs), ("multi_out_guard", Json.bool Gen.ufuncMultiOutGuard),
+      ("multi_out_split", Json.mkObj (Gen.ufuncMultiOutSplit.map fun e => (nameStr e.1, listJ nameJ e.2))),
+      ("out_trial_ones", Json.bool Gen.ufuncOutTrialOnes), ("outer_final_reverse", Json.bool Gen.outerFinalReverse),
+      ("out_steps", listJ (fun st => Json.str (outStep17Str st)) Gen.ufuncOutSteps),
       ("numpy_functions", Json.arr (Gen.numpyFunctions.map fun e => Json.arr #[nameJ e.1, listJ nameJ e.2.1, nameJ e.2.2]).toArray),
       ("numpy_sigs", Json.arr (Gen.numpySigs.map fun e => Json.arr #[nameJ e.1, nameJ e.2.2.1, sigJ e.2.2.2]).toArray)])))
   | "c17_report" =>
@@ -141,7 +177,24 @@ def c17 (op : String) (a : Array Json) : R (Option Json) := do
     let nd ← jList jNat (← arg a 1)
     pure (some (okJ (Json.arr ((outerPrepare nd).map fun e => Json.arr #[natJ e.1, natJ e.2]).toArray)))
   | "c17_ufunc_route" =>
-    let o ← jBool (← arg a 1); let s ← jBool (← arg a 2); let m ← (← arg a 3).getStr?
-    pure (some (okJ (Json.str (routeStr (arrayUfunc o s m)))))
+    -- [ufunc name, method, out given, every out operand of the array's own type] -> route
+    let u := nameIdOrUnknown (← (← arg a 1).getStr?)
+    let m ← (← arg a 2).getStr?
+    let og ← jBool (← arg a 3); let ok ← jBool (← arg a 4)
+    pure (some (okJ (Json.str (routeStr (arrayUfuncOf u og ok m)))))
+  | "c17_ufunc_result" =>
+    -- [ufunc name, method, out given, out ok, number of operands] -> what the call hands back (operands by position)
+    let u := nameIdOrUnknown (← (← arg a 1).getStr?)
+    let m ← (← arg a 2).getStr?
+    let og ← jBool (← arg a 3); let ok ← jBool (← arg a 4); let n ← jNat (← arg a 5)
+    pure (some (okJ (uresult17J (ufuncResult 4 u m og ok (List.range n)))))
+  | "c17_out_store" =>
+    -- [format of out, what was computed, shapes equal, default compressed axes] -> class and attribute dictionary of out afterwards
+    let o ← jFmt17 (← arg a 1); let r ← jComputed17 (← arg a 2); let sh ← jBool (← arg a 3); let d ← jList jNat (← arg a 4)
+    pure (some (exceptJ (fun s => Json.mkObj [("cls", nameJ s.cls), ("holds", computed17J s.holds), ("well_formed", Json.bool s.wellFormed)])
+      (outStore Gen.ufuncOutSteps o r sh d)))
+  | "c17_elemwise_format" =>
+    let d ← jList jNat (← arg a 1); let fs ← jList jFmt17 (← arg a 2)
+    pure (some (okJ (fmt17J (elemwiseFormat d fs))))
   | _ => pure none
 end DriverOps
